@@ -203,7 +203,9 @@ def _resolve_target_set(source: NixSourceCode) -> AttributeSet:
         raise ValueError("Source must contain exactly one top-level expression")
     try:
         return _resolve_target_set_from_expr(source.expressions[0])
-    except ValueError as exc:
+    except (ValueError, ResolutionError) as exc:
+        # A body that is a name without a resolvable definition (a function
+        # parameter, an unbound identifier) is an unsupported shape as well.
         raise ValueError(
             "Top-level expression must be an attribute set or function definition"
         ) from exc
